@@ -40,7 +40,7 @@ def _c13_family(f):
 
 REGISTRY = {
     "C13": {
-        "rules": [order.rule_requested_order, memo.rule_info_memo_key, memo.rule_sibling_guard_agreement, memo.rule_operator_orientation, memo.rule_density_orientation, memo.rule_unnormalised_exponent, envs.rule_env_exponent, 
+        "rules": [order.rule_requested_order, order.rule_where_sorted_with_operator, memo.rule_info_memo_key, memo.rule_sibling_guard_agreement, memo.rule_operator_orientation, memo.rule_density_orientation, memo.rule_unnormalised_exponent, envs.rule_env_exponent, 
             P(optflow.rule_option_delivery, opts=("normalized",), modules=("quimb.tensor",), rule="opt-deliver[normalized]", floor=15,
               description="from every function that accepts `normalized`, each call whose resolved callee (all candidates) accepts "
                           "`normalized` receives a value derived from the caller's own (or an explicit literal): an omitted "
